@@ -22,7 +22,8 @@ THEOREMS = ['C12_expand_shorthand', 'C12_interpolates_evenly_spaced',
             'C12_keywords_importance', 'C12_importance_of_cell',
             'C12_importance_missing_refused', 'C12_skipped_iff_zero',
             'C12_converted_iff_nonzero', 'C12_data_card_max_zero',
-            'C12_cell_card_max_zero', 'C12_like_but_imp_refuted',
+            'C12_cell_card_max_zero', 'C12_chain_max_zero',
+            'C12_conv_keys_not_skipped', 'C12_like_but_imp_refuted',
             'C12_nonu_refuted']
 TRUSTED = [
     'hand-written model coq/C12/Model.v + Text.v (modelled, tied by '
@@ -41,15 +42,23 @@ TRUSTED = [
     'harness: generators, impl.T4File reader, PEG shim replacing TatSu',
 ]
 ASSUMPTIONS = [
-    'importances are non-negative (theorems C12_skipped_iff_zero / '
-    'C12_data_card_max_zero: max = 0 iff all = 0)',
-    'first entry of an IMP data card does not start with ".", "+" or "-" '
-    '(datacard.split would drop that character: "imp:n .5" is read as 5)',
+    'importances are non-negative (C12_data_card_max_zero / '
+    'C12_cell_card_max_zero: max = 0 iff all = 0)',
+    'at least one cell of the deck is converted: a deck whose cells all have '
+    'zero importance (not a runnable MCNP problem) stops with ValueError from '
+    'max() of an empty sequence, no file is written (checked: all_zero_deck)',
+    'the first entry of an IMP data card starts with a digit (datacard.split '
+    'moves a leading ".", sign or non-numeric entry into the card name: '
+    '"imp:n .5" is read as 5; zero-ness is not affected)',
     'no LIKE cycle (the code does not terminate); no jump (nJ) entries in IMP '
-    'cards for the Spec-level statements (the code keeps None and converts the '
-    'cell)',
+    'cards for the deck-level theorems (the code keeps None, converts the '
+    'cell, and max(None, x) is a TypeError with two cards)',
     'cell keywords other than imp/fill/lat/trcl/u/rho/mat do not contain the '
-    'letter u (finding keyword_with_u_read_as_universe otherwise)',
+    'letter u (finding keyword_with_u_read_as_universe otherwise); a LIKE '
+    'card does not lower an importance given on the card it is LIKE (finding '
+    'like_but_imp_max otherwise)',
+    'IMP data cards have pairwise distinct names (C12_importance_cards_max); '
+    'a repeated name replaces the earlier card (modelled and tied)',
 ]
 HEADER = g.HEADER
 
@@ -385,12 +394,27 @@ def ukw_cell(deck, cell):
     return bool(ukw) and 'u' not in toks
 
 
+def like_lowered(deck, cell):
+    '''Some LIKE card of the cell's chain (the cell itself included) gives
+    IMP:x = 0 for a particle to which a card further down the chain gives a
+    positive importance.'''
+    seen = {}
+    for link in reversed(chain_of(deck, cell)):      # base first
+        own = {}
+        for blk in link['blocks']:
+            if blk['kind'] == 'imp':
+                own[blk['part']] = blk['value']
+        if link.get('like') is not None and any(
+                v == 0 and seen.get(part, 0) > 0 for part, v in own.items()):
+            return True
+        seen.update(own)
+    return False
+
+
 def class_of(deck, cell, emitted, listed):
     '''Narrow known-finding classes.'''
     if cell.get('like') is not None and cell['zero'] and not listed \
-            and (emitted or ukw_cell(deck, cell)) and cell['own_imp'] \
-            and all(v == 0 for v in cell['own_imp']) \
-            and cell['chain_has_card_imp']:
+            and (emitted or ukw_cell(deck, cell)) and like_lowered(deck, cell):
         # (not emitted when a NONU keyword also moved it to a universe)
         return 'like_but_imp_max'
     if not emitted and not listed and not cell['zero'] \
@@ -452,6 +476,135 @@ nps 1
 '''
 
 
+# ---------------------------------------------------------------------------
+# corpus: hand-written decks with hand-written answers (which cells are zero)
+# ---------------------------------------------------------------------------
+
+def corpus_deck(cells, imp_cards):
+    '''cells: [(id, options)] explicit void cells in nested shells, or
+    (id, ('like', n), options).'''
+    explicit = [c for c in cells if len(c) == 2]
+    lines = ['C12 corpus deck']
+    k = 0
+    for cell in cells:
+        if len(cell) == 2:
+            lines.append(f'{cell[0]} 0 {g.geom_for(k, len(explicit))} '
+                         f'{cell[1]}'.rstrip())
+            k += 1
+        else:
+            lines.append(f'{cell[0]} like {cell[1][1]} but {cell[2]}'.rstrip())
+    lines.append('')
+    for j in range(1, max(1, len(explicit) - 1) + 1):
+        lines.append(f'{j} so {j}')
+    lines.append('')
+    lines.extend(imp_cards)
+    lines.append('nps 1')
+    return '\n'.join(lines) + '\n'
+
+
+CORPUS = [
+    # (name, cells, IMP cards, ids of the zero-importance cells)
+    ('repeat', [(1, ''), (2, ''), (3, ''), (4, ''), (5, ''), (6, '')],
+     ['imp:n 1 2r 0 1 0'], [4, 6]),
+    ('repeat-of-zero-upper-case', [(1, ''), (2, ''), (3, ''), (4, ''), (5, '')],
+     ['IMP:N 1 R 0 2R'], [3, 4, 5]),
+    ('two-particles', [(1, ''), (2, ''), (3, ''), (4, '')],
+     ['imp:n 1 0 0 1', 'imp:p 0 0 1 1'], [2]),
+    ('three-particles-one-live', [(1, ''), (2, ''), (3, '')],
+     ['imp:n 0 0 1', 'imp:p 0 0 0', 'imp:e 0 1 0'], [1]),
+    ('interpolate-down-to-zero', [(1, ''), (2, ''), (3, ''), (4, '')],
+     ['imp:n 2 1i 0 1'], [3]),
+    ('interpolate-up-from-zero', [(1, ''), (2, ''), (3, ''), (4, ''), (5, '')],
+     ['imp:n 0 2i 3 0'], [1, 5]),
+    ('multiply-by-zero', [(1, ''), (2, ''), (3, ''), (4, '')],
+     ['imp:n 1 0m 1 1m'], [2]),
+    ('multiply-zero', [(1, ''), (2, ''), (3, '')],
+     ['imp:n 0 4m 2'], [1, 2]),
+    ('spellings-of-zero', [(1, ''), (2, ''), (3, ''), (4, ''), (5, ''), (6, '')],
+     ['imp:n 1 0.0 0. 0e0 0.00 1'], [2, 3, 4, 5]),
+    ('position-not-id', [(30, ''), (10, ''), (20, '')], ['imp:n 0 1 1'], [30]),
+    ('continuation-of-data-card', [(1, ''), (2, ''), (3, ''), (4, '')],
+     ['imp:n 1', '      0 1', '      0'], [2, 4]),
+    ('cell-card-spacing',
+     [(1, 'imp : n = 0'), (2, 'IMP:N 0.0'), (3, 'imp:n,p=0'), (4, 'imp:n=1'),
+      (5, 'imp: n =0 imp :p= 1'), (6, 'imp:n=0 vol=1 imp:p=0')], [],
+     [1, 2, 3, 6]),
+    ('cell-card-wins-over-data-card',
+     [(1, 'imp:n=0'), (2, ''), (3, ''), (4, 'imp:p=2')],
+     ['imp:n 1 0 1 0'], [1, 2]),
+    ('like-inherits', [(1, 'imp:n=0'), (2, 'imp:n=1'), (3, ('like', 1), 'vol=2'),
+                       (4, ('like', 3), 'tmp=1e-8'), (5, ('like', 2), '')],
+     [], [1, 3, 4]),
+    ('like-raises', [(1, 'imp:n=0'), (2, 'imp:n=1'), (3, ('like', 1), 'imp:n=2')],
+     [], [1]),
+    ('like-by-rank', [(1, ''), (2, ''), (3, ('like', 1), ''), (4, ('like', 2), '')],
+     ['imp:n 1 0 0 1'], [2, 3]),
+    ('keywords-after-imp', [(1, 'imp:n=0 vol=3 tmp=2.5-8'), (2, 'vol=1 imp:n=1 pwt=0')],
+     [], [1]),
+]
+
+
+def corpus(res):
+    '''Every corpus deck through the whole converter (VOLU ids, NOTE) and
+    through parse() (skip list), against the hand-written answer.'''
+    for name, cells, cards, zero in CORPUS:
+        text = corpus_deck(cells, cards)
+        res.seen(('corpus', name), nontrivial=True)
+        res.count('corpus')
+        ids = [c[0] for c in cells]
+        conv = impl.convert(text)
+        if not conv.ok or conv.text is None:
+            res.violation('impl-violation', f'corpus deck {name} rejected: '
+                          f'{conv.exc}: {conv.msg[:150]}',
+                          {'input': {'deck': text}, 'expected': zero},
+                          found_input=True)
+            continue
+        volu = set(impl.T4File(conv.text).volumes)
+        note = g.note_list(conv.stdout)
+        live = [k for k in ids if k not in zero]
+        if sorted(volu & set(ids)) != sorted(live) or sorted(note) != sorted(zero):
+            res.violation('impl-violation',
+                          f'corpus deck {name}: zero-importance cells {zero}; '
+                          f'VOLU {sorted(volu & set(ids))} NOTE {note}',
+                          {'input': {'deck': text}, 'expected': zero},
+                          found_input=True)
+        result = g.run_impl(text, [])
+        if result[0] != 'ok' or sorted(result[2]) != sorted(zero):
+            res.violation('impl-violation',
+                          f'corpus deck {name}: zero-importance cells {zero}; '
+                          f'parse() skip list {result[2] if result[0] == "ok" else result[1]}',
+                          {'input': {'deck': text}, 'expected': zero},
+                          found_input=True)
+
+
+ALL_ZERO = '''all cells of zero importance
+1 0 -1 imp:n=0
+2 0 1 imp:n=0
+
+1 so 1
+
+nps 1
+'''
+
+
+def all_zero_deck(res):
+    '''Outside the domain (ASSUMPTIONS): nothing to convert. The run must
+    stop without producing VOLU lines for the zero-importance cells.'''
+    conv = impl.convert(ALL_ZERO)
+    res.seen(('all-zero',), nontrivial=False)
+    if conv.ok and conv.text:
+        t4 = impl.T4File(conv.text)
+        note = g.note_list(conv.stdout)
+        if set(t4.volumes) & {1, 2} or sorted(note) != [1, 2]:
+            res.violation('impl-violation',
+                          'deck with only zero-importance cells: VOLU '
+                          f'{sorted(t4.volumes)} NOTE {note}',
+                          {'input': {'deck': ALL_ZERO}}, found_input=True)
+        res.count('all-zero:converted-empty')
+    else:
+        res.count('all-zero:stopped:' + str(conv.exc))
+
+
 def witnesses(res):
     conv = impl.convert(WITNESS_LIKE)
     if conv.ok and conv.text:
@@ -502,9 +655,7 @@ def parse_ties(res, rng, n_valid, n_bad):
                 if skipped != cell['zero']:
                     cls = None
                     if cell['like'] is not None and cell['zero'] \
-                            and cell['own_imp'] \
-                            and all(v == 0 for v in cell['own_imp']) \
-                            and cell['chain_has_card_imp']:
+                            and not skipped and like_lowered(deck, cell):
                         cls = 'like_but_imp_max'
                     res.violation(
                         'impl-violation',
@@ -615,6 +766,8 @@ def run(res, tier, seed, proofs_ok):
                 'non-trivial = >= 2 tokens / cells, for (c) a deck with both '
                 'zero and non-zero cells')
     witnesses(res)
+    corpus(res)
+    all_zero_deck(res)
     expand_ties(res, rng, 400 if quick else 4000, 300 if quick else 3000)
     parse_ties(res, rng, 350 if quick else 3500, 250 if quick else 2000)
     conversion_sweep(res, rng, 300 if quick else 3000, 40 if quick else 300)
@@ -631,14 +784,16 @@ def replay(path):
             print('VOLU ids:', sorted(t4.volumes))
             print('NOTE list:', g.note_list(conv.stdout))
         if 'coq_case' in inp:
-            model, out = common.coq_eval(HEADER, 'run_case ' + inp['coq_case'])
+            model, out = common.coq_eval(HEADER + 'Import ListNotations.\n',
+                                         'run_case ' + inp['coq_case'])
             print('model:', model if model else out[-1500:])
     elif 'tokens' in inp:
         print('implementation:', impl_expand(inp['tokens'],
                                              inp.get('expected')))
         tables = g.c_tables(inp['tokens'], {})
         model, _ = common.coq_eval(
-            HEADER, f'expand FS (prims_of {tables}) '
+            HEADER + 'Import ListNotations.\n',
+            f'expand FS (prims_of {tables}) '
             + clist(cstr(t) for t in inp['tokens']) + ' '
             + copt(inp.get('expected'), cz))
         print('model:', model)
